@@ -21,7 +21,9 @@ SPEC = {
                 "Go channel semantics: a send to a channel with a parked receiver hands the value over (eager dispatch)"],
     "level_text": "Theorems (Props/C05.v, closed) over a small-step Gallina model of stateless.Tracker + optracker for every event schedule, "
                   "fault placement, queue size and worker count; the model is stepped along every script the harness runs on the real Tracker and "
-                  "compared after every event; the implementation's own observations are checked against the boolean form of the property",
+                  "compared after every event; the implementation's own observations are checked against the boolean form of the property (codes 10/11/13/14), "
+                  "which is proved sound (conv_/inst_/heal_/opts_monitor_sound: a code not produced implies the Prop-level clause at every observation; monitor_shared_state: "
+                  "the monitor's record of the shared state is the model's pinset / last along every script); completeness of these monitors for the model is not proved",
     "level_note": "model tied to code by differential testing (generator-bounded); IPFS connector/daemon behaviour is the assumed contract of C16; "
                   "a cancelled IPFS call is assumed to have no daemon effect",
     "assumptions": ["connector/daemon contract of C16", "a cancelled IPFS call has no effect on the daemon",
